@@ -1018,6 +1018,56 @@ def rule_r5(chk, prog):
               'filter_nodes no longer traverses with dfs', loc=m.loc(fn))
 
 
+# --------------------------------------------------------------------- R7
+def rule_r7(chk, prog):
+    chk.rule('C12.R7', 'a node is the sequence of its children: indexing is '
+             'data[key], iteration (zip(node, ...), for x in node, '
+             'Node(*node)) yields every element of data in order - it is '
+             'either left to __getitem__ or defined as iter(self.data)')
+    m = prog.mod('nodes')
+    cd = m.cls('Node')
+    meths = {st.name: st for st in cd.body
+             if isinstance(st, ast.FunctionDef)}
+    gi = meths.get('__getitem__')
+    if gi is None:
+        raise AnalysisError('Node.__getitem__ not found')
+    selfp = gi.args.args[0].arg
+    keyp = gi.args.args[1].arg if len(gi.args.args) > 1 else None
+    rets = [r for r in walk_no_nested(gi) if isinstance(r, ast.Return)]
+    ok = len(rets) == 1 and rets[0].value is not None and unparse(
+        expand_locals(gi, rets[0].value)) == f'{selfp}.data[{keyp}]'
+    chk.check('C12.R7', 'nodes.Node.__getitem__', 'returns data[key]', ok,
+              'indexing a node does not return the element of data at that '
+              'position', loc=m.loc(gi), nontrivial=True)
+    it = meths.get('__iter__')
+    if it is None:
+        chk.instance('C12.R7', 'nodes.Node', 'no __iter__: iteration uses '
+                     '__getitem__ with 0, 1, ... until IndexError', True,
+                     'default sequence iteration over data', nontrivial=True,
+                     loc=m.loc(cd))
+    else:
+        sp = it.args.args[0].arg
+        rets = [r for r in walk_no_nested(it) if isinstance(r, ast.Return)]
+        ys = [y for y in walk_no_nested(it)
+              if isinstance(y, (ast.Yield, ast.YieldFrom))]
+        good = (f'iter({sp}.data)', f'{sp}.data.__iter__()')
+        ok = bool(rets) and not ys and all(
+            r.value is not None and unparse(expand_locals(
+                it, r.value)) in good for r in rets)
+        if not ok and ys and not rets:
+            ok = len(ys) == 1 and isinstance(ys[0], ast.YieldFrom) and \
+                unparse(ys[0].value) == f'{sp}.data'
+        chk.check('C12.R7', 'nodes.Node.__iter__', 'iterates over data', ok,
+                  'Node.__iter__ does not simply iterate over data (it '
+                  'filters, reorders or wraps the children): every '
+                  'zip(node, children), "for x in node" and Node(*node) in '
+                  'the traversals, in reduplicate and in the mutators now '
+                  'sees a different sequence than node[i] / node.data - '
+                  're-duplication pairs old and new children wrongly, '
+                  'rebuilt nodes lose elements', loc=m.loc(it),
+                  nontrivial=True)
+
+
 def run(tier):
     prog = Program()
     chk = Check(
@@ -1050,6 +1100,7 @@ def run(tier):
     chk.guard(rule_r3, chk, prog)
     chk.guard(rule_r4, chk, prog)
     chk.guard(rule_r5, chk, prog)
+    chk.guard(rule_r7, chk, prog)
     # "copying yields an equal tree with fresh identities": reduplicate is
     # the copy that re-establishes them (shared with C13.R2-R4)
     from . import c13
